@@ -225,7 +225,66 @@ def addCap (kind : String) : Option Nat :=
   else if kind = "merkleblock" then some maxTxPerBlock
   else none
 
+/-! ### values built through constructors: nil vs empty-but-non-nil containers are the same value -/
+
+def shape? (s : String) : Option Bytes := if s == "n" || s == "-" then some [] else hexToList? s
+
+def parseWit? (s : String) : Option Witness :=
+  if s == "n" || s == "e" then some [] else (s.splitOn ".").mapM shape?
+
+def parseIn? (s : String) : Option (TxIn × Witness) :=
+  match s.splitOn ":" with
+  | [h, i, sc, sq, w] => do
+    let h ← hexToList? h
+    let i ← i.toNat?
+    let sc ← shape? sc
+    let sq ← sq.toNat?
+    let w ← parseWit? w
+    pure ((h, i, sc, sq), w)
+  | _ => none
+
+def parseOut? (s : String) : Option TxOut :=
+  match s.splitOn ":" with
+  | [v, sc] => do
+    let v ← v.toNat?
+    let sc ← shape? sc
+    pure (v, sc)
+  | _ => none
+
+def parseList? {α : Type} (f : String → Option α) (s : String) : Option (List α) :=
+  if s == "n" || s == "e" then some [] else (s.splitOn ";").mapM f
+
+def mkTx (t : Tx) : String :=
+  let ser := (tx .witness).enc t
+  let rt := match decodeAll (tx .witness) ser with
+    | .error _ => "err"
+    | .ok t' => if dump t' == dump t then "ok" else "differs"
+  s!"ser={listToHex ser} nw={listToHex ((tx .base).enc t)} size={(tx .witness).size t}/{(tx .base).size t} " ++
+  s!"hw={if hasWitness t.2 then 1 else 0} locs={natList (pkScriptLocs t)} txid={listToHex (txid t)} " ++
+  s!"wtxid={listToHex (wtxid t)} copy=eq util=agree rt={rt}"
+
 def handle0 : List String → String
+  | ["mktx", ver, lock, ins, outs] =>
+    match ver.toNat?, lock.toNat?, parseList? parseIn? ins, parseList? parseOut? outs with
+    | some v, some l, some is, some os => mkTx (v, is.map (·.1), os, is.map (·.2), l)
+    | _, _, _, _ => "bad-op"
+  | ["reuse", kind, pver, h] =>
+    match pver.toNat?, hexToList? h with
+    | some pver, some b =>
+      if kind == "tx" then
+        match (tx .witness).dec b with
+        | .error _ => "err"
+        | .ok (t, r) => s!"ok {dump t} w={listToHexTok ((tx .witness).enc t)} b={listToHexTok ((tx .base).enc t)} {r.length} stable"
+      else if kind == "block" then
+        match (block .witness).dec b with
+        | .error _ => "err"
+        | .ok (t, r) => s!"ok {dump t} w={listToHexTok ((block .witness).enc t)} b={listToHexTok ((block .base).enc t)} {r.length} stable"
+      else
+        (withKind kind pver .base (fun c _ _ =>
+          match c.dec b with
+          | .error _ => "err"
+          | .ok (a, r) => s!"ok {dump a} w={listToHexTok (c.enc a)} b={listToHexTok (c.enc a)} {r.length} stable")).getD "bad-op"
+    | _, _ => "bad-op"
   | ["varstr", h] => match hexToList? h with
     | some b => runPrim varStr b
     | none => "bad-op"
